@@ -218,6 +218,16 @@ func Catalogue(syntax string) []Dev {
 	val := func(e *Enum, i int) *EnumVal { return e.Body[i].(*EnumVal) }
 	en("ME1=0", func(e *Enum) { val(e, 1).Number = 0 })
 	en("ME1=0+alias", func(e *Enum) { val(e, 1).Number = 0; e.Body = append([]any{&Option{"allow_alias", "true"}}, e.Body...) })
+	if syntax == "proto2" {
+		// a default that names the second of two aliases (the descriptor records the name as written)
+		add("ME", "ME1=0+alias+f3-default-ME1", func(ws *WS) {
+			e := ME(ws)
+			val(e, 1).Number = 0
+			e.Body = append([]any{&Option{"allow_alias", "true"}}, e.Body...)
+			F(ws, "f3").Type = "M.ME"
+			F(ws, "f3").Opts = append(F(ws, "f3").Opts, Option{"default", "ME1"})
+		})
+	}
 	en("alias-alone", func(e *Enum) { e.Body = append([]any{&Option{"allow_alias", "true"}}, e.Body...) })
 	en("alias-false", func(e *Enum) { e.Body = append([]any{&Option{"allow_alias", "false"}}, e.Body...) })
 	en("first=1", func(e *Enum) { val(e, 0).Number = 1; val(e, 1).Number = 2 })
